@@ -611,7 +611,11 @@ func callSSA(i *interpreter, caller *frame, callpos token.Pos, fn *ssa.Function,
 			fn.Pkg.Build()
 		}
 		if fn.Blocks == nil {
-			panic(unsupported("no code for function %s", fn.String()))
+			stack := ""
+			if caller != nil {
+				stack = " called from " + strings.Join(caller.stack(), " <- ")
+			}
+			panic(unsupported("no code for function %s%s", fn.String(), stack))
 		}
 	}
 	if i.initDepth == 0 && i.isPure(fn) {
